@@ -86,3 +86,14 @@ Theorem C14_equal_content_rule_refuted :
   dget (s_store (drun del_eq lost_evs)) 0x1F09 = None /\
   dget (s_store (drun del_is lost_evs)) 0x1F09 = Some (mkD 2 0x1F09 5).
 Proof. exact equal_content_rule_loses_latest. Qed.
+
+(* an array payload merged from two packets (prev.payload + this.payload; a zone may be in both): what is read for a zone is, key by key,
+   what the LATER packet says, and the earlier packet's value only where the later one says nothing *)
+Theorem C14_merged_array_newest_wins : forall prev this z k,
+  fget (pick (prev ++ this) z) k = match fget (pick this z) k with Some v => Some v | None => fget (pick prev z) k end.
+Proof. exact merged_array_newest_wins. Qed.
+Example C14_merged_array_witness :
+  fget (pick ([(1, [(1, 10); (2, 20)]); (2, [(1, 11)])] ++ [(1, [(1, 30)])]) 1) 1 = Some 30 /\
+  fget (pick ([(1, [(1, 10); (2, 20)]); (2, [(1, 11)])] ++ [(1, [(1, 30)])]) 1) 2 = Some 20 /\
+  fget (pick ([(1, [(1, 10); (2, 20)]); (2, [(1, 11)])] ++ [(1, [(1, 30)])]) 2) 1 = Some 11.
+Proof. vm_compute. auto. Qed.
